@@ -370,6 +370,28 @@ def load_findings():
     return json.load(open(p)).get('findings', [])
 
 
+class Corr:
+    """Collector of L1 disagreements (implementation vs extracted model on the same pre-state).  Every disagreement
+    of a run is kept (up to a cap), so that one inside the scope of a recorded finding cannot hide another."""
+    CAP = 400
+
+    def __init__(self):
+        self.items = []
+        self.total = 0
+
+    def open(self):
+        return True
+
+    def __iadd__(self, case):
+        self.total += 1
+        if len(self.items) < self.CAP:
+            self.items.append(case)
+        return self
+
+    def __bool__(self):
+        return bool(self.items)
+
+
 class Verdict:
     """Collects failures of one run, classifies them against known findings and
     prints the VIOLATION / KNOWN-FINDING lines."""
@@ -403,7 +425,23 @@ class Verdict:
     def finish(self, l0=None, extra_no_input=None):
         """Print verdict lines; return exit code."""
         rc = 0
-        if extra_no_input is not None and self.failure(extra_no_input) == 'known':
+        self.l1_total = self.l1_known = 0
+        if isinstance(extra_no_input, Corr):
+            corr, extra_no_input = extra_no_input, None
+            self.l1_total = corr.total
+            for item in corr.items:
+                # a model/implementation disagreement inside the scope of a recorded finding (the model guards that
+                # sub-domain instead of transcribing the defect) is counted with that finding; the first one outside
+                # every such scope is what is reported
+                if self.failure(item) == 'known':
+                    self.l1_known += 1
+                else:
+                    self.fail.remove(item)
+                    if extra_no_input is None:
+                        extra_no_input = item
+            if os.environ.get('VERIF_DEBUG'):
+                print('DEBUG L1 disagreements: total=%d classified-known=%d first-new=%s' % (corr.total, self.l1_known, (extra_no_input or {}).get('what')), file=sys.stderr)
+        elif extra_no_input is not None and self.failure(extra_no_input) == 'known':
             extra_no_input = None      # a model/implementation disagreement inside the scope of a recorded finding
         elif extra_no_input is not None:
             self.fail.remove(extra_no_input)
